@@ -7,6 +7,7 @@ import SaphyrModel.Proofs.BlockFold
 import SaphyrModel.Props.C04
 import SaphyrModel.Sc.MI.TokSpan
 import SaphyrModel.Sc.NT.TokOrd2
+import SaphyrModel.Sc.ML.TokOrdL
 /-! # C12 — Reported positions are true positions
 
 **Parser half, proved for every token list** (`event_spans_are_token_spans` and its corollaries): the
@@ -355,5 +356,21 @@ theorem event_spans_ordered_for_every_text (k : InKind) (cap : Nat) (text : Str)
     ∀ v ∈ (iterate pfuel (Api.init (PState.init (scanAll sfuel (mkSc k cap text) []).1 scanErr eofm keep)) []).1,
       v.2.start.index ≤ v.2.stop.index :=
   event_spans_ordered _ scanErr eofm keep pfuel (token_spans_ordered k cap text sfuel)
+
+/-- … in lines too: every token the scanner delivers starts on a line no later than the one it ends on — every
+    text, back-end and capacity (the same invariants for the line of the mark, `Sc/ML/*.lean`) -/
+theorem token_span_lines_ordered (k : InKind) (cap : Nat) (text : Str) (fuel : Nat) :
+    ∀ t ∈ (scanAll fuel (mkSc k cap text) []).1, t.span.start.line ≤ t.span.stop.line :=
+  scanAll_ordL fuel (mkSc k cap text) [] (fun _ h => by simp [mkSc] at h) (fun _ h => by simp at h)
+
+/-- … and so does every event, for every text -/
+theorem event_span_lines_ordered_for_every_text (k : InKind) (cap : Nat) (text : Str) (sfuel pfuel : Nat)
+    (scanErr : Option ScanError) (eofm : Marker) (keep : Bool) :
+    ∀ v ∈ (iterate pfuel (Api.init (PState.init (scanAll sfuel (mkSc k cap text) []).1 scanErr eofm keep)) []).1,
+      v.2.start.line ≤ v.2.stop.line := by
+  intro v hv
+  rcases (event_spans_are_token_spans _ scanErr eofm keep pfuel).1 v hv with ⟨t, ht, h⟩ | ⟨t, ht, h⟩
+  · rw [h]; exact token_span_lines_ordered k cap text sfuel t ht
+  · rw [h]; exact Nat.le_refl _
 
 end SaphyrModel.C12
